@@ -74,6 +74,22 @@ pub fn parse_strategy(s: &str) -> Strategy {
             };
             Strategy::Replay { list, pos: 0, fallback: Box::new(fb) }
         }
+        // np:<step@tid+step@tid…|->:<yield_after>
+        "np" => {
+            let forced = match parts.get(1) {
+                Some(l) if !l.is_empty() && *l != "-" => l
+                    .split('+')
+                    .filter_map(|x| x.split_once('@').map(|(a, b)| (a.parse::<u64>().unwrap(), b.to_string())))
+                    .collect(),
+                _ => vec![],
+            };
+            Strategy::Np {
+                forced,
+                yield_after: parts.get(2).and_then(|x| x.parse().ok()).unwrap_or(6),
+                loads: Default::default(),
+                run_len: 0,
+            }
+        }
         _ => Strategy::First,
     }
 }
@@ -427,55 +443,125 @@ pub struct Ring {
     pub extra: Vec<String>,
 }
 
-impl Interp for Ring {
-    fn case(&mut self, a: &[&str]) -> String {
-        // a[0] = case id, rest = header tokens
-        let exe = std::env::current_exe().unwrap();
-        let mut child = std::process::Command::new(exe)
-            .arg("--ring-one")
-            .args(&a[1..])
-            .stdout(std::process::Stdio::piped())
-            .stderr(std::process::Stdio::null())
-            .spawn()
-            .unwrap();
-        let timeout = std::time::Duration::from_secs(
-            std::env::var("VERIF_RING_TIMEOUT").ok().and_then(|v| v.parse().ok()).unwrap_or(20),
-        );
-        let start = std::time::Instant::now();
-        let mut out = child.stdout.take().unwrap();
-        let reader = std::thread::spawn(move || {
-            let mut s = String::new();
-            use std::io::Read;
-            let _ = out.read_to_string(&mut s);
-            s
-        });
-        let mut hung = false;
-        loop {
-            match child.try_wait() {
-                Ok(Some(_)) => break,
-                _ => {
-                    if start.elapsed() > timeout {
-                        let _ = child.kill();
-                        let _ = child.wait();
-                        hung = true;
-                        break;
+/// runs one case in a child process; returns the header tokens and the trace lines (always closed by an `end` line)
+fn run_child(tokens: &[String]) -> (String, Vec<String>) {
+    let exe = std::env::current_exe().unwrap();
+    let mut child = std::process::Command::new(exe)
+        .arg("--ring-one")
+        .args(tokens)
+        .stdout(std::process::Stdio::piped())
+        .stderr(std::process::Stdio::null())
+        .spawn()
+        .unwrap();
+    let timeout = std::time::Duration::from_secs(
+        std::env::var("VERIF_RING_TIMEOUT").ok().and_then(|v| v.parse().ok()).unwrap_or(20),
+    );
+    let start = std::time::Instant::now();
+    let mut out = child.stdout.take().unwrap();
+    let reader = std::thread::spawn(move || {
+        let mut s = String::new();
+        use std::io::Read;
+        let _ = out.read_to_string(&mut s);
+        s
+    });
+    let mut hung = false;
+    loop {
+        match child.try_wait() {
+            Ok(Some(_)) => break,
+            _ => {
+                if start.elapsed() > timeout {
+                    let _ = child.kill();
+                    let _ = child.wait();
+                    hung = true;
+                    break;
+                }
+                std::thread::sleep(std::time::Duration::from_millis(1));
+            }
+        }
+    }
+    let text = reader.join().unwrap_or_default();
+    let mut lines: Vec<String> = text.lines().map(|l| l.to_string()).collect();
+    let header = if !lines.is_empty() && lines[0].starts_with("HEADER") {
+        lines.remove(0)[6..].to_string()
+    } else {
+        String::new()
+    };
+    if hung {
+        lines.push("end steps=0 schedule=- => hang".into());
+    } else if !lines.last().map_or(false, |l| l.starts_with("end ")) {
+        lines.push("end steps=0 schedule=- => crash".into());
+    }
+    (header, lines)
+}
+
+/// bounded-preemption search (`sched=dfs:<bound>:<maxruns>[:<yield_after>]`): breadth first over sets of at most `bound`
+/// forced scheduling choices on top of the non-preemptive round-robin schedule; every *distinct* schedule found is one
+/// `run` block of the answer (the driver starts a fresh model at each `run` line and judges each `end`)
+fn dfs(tokens: &[String], spec: &str) -> Vec<String> {
+    let parts: Vec<&str> = spec.split(':').collect();
+    let bound: usize = parts.get(1).and_then(|x| x.parse().ok()).unwrap_or(1);
+    let maxruns: usize = parts.get(2).and_then(|x| x.parse().ok()).unwrap_or(500);
+    let ya: u32 = parts.get(3).and_then(|x| x.parse().ok()).unwrap_or(6);
+    let mut queue: std::collections::VecDeque<Vec<(u64, String)>> = std::collections::VecDeque::new();
+    queue.push_back(vec![]);
+    let mut seen = std::collections::HashSet::new();
+    let mut out = Vec::new();
+    let (mut runs, mut distinct) = (0usize, 0usize);
+    while let Some(forced) = queue.pop_front() {
+        if runs >= maxruns {
+            break;
+        }
+        runs += 1;
+        let enc = if forced.is_empty() {
+            "-".to_string()
+        } else {
+            forced.iter().map(|(s, t)| format!("{s}@{t}")).collect::<Vec<_>>().join("+")
+        };
+        let mut toks: Vec<String> = tokens.iter().filter(|t| !t.starts_with("sched=")).cloned().collect();
+        toks.push(format!("sched=np:{enc}:{ya}"));
+        let (header, lines) = run_child(&toks);
+        // the scheduled steps: (tid, enabled set)
+        let steps: Vec<(String, Vec<String>)> = lines
+            .iter()
+            .filter_map(|l| {
+                let en = l.split(' ').find_map(|t| t.strip_prefix("en="))?;
+                Some((l.split(' ').next()?.to_string(), en.split(',').map(|x| x.to_string()).collect()))
+            })
+            .collect();
+        let key = steps.iter().map(|(t, _)| t.as_str()).collect::<Vec<_>>().join(",");
+        if !seen.insert(key) {
+            continue;
+        }
+        distinct += 1;
+        out.push(format!("run {distinct} forced={enc} => ok{header}"));
+        out.extend(lines);
+        if forced.len() < bound {
+            let from = forced.last().map(|x| x.0 as usize + 1).unwrap_or(0);
+            for (i, (tid, en)) in steps.iter().enumerate().skip(from) {
+                for u in en {
+                    if u != tid {
+                        let mut f = forced.clone();
+                        f.push((i as u64, u.clone()));
+                        queue.push_back(f);
                     }
-                    std::thread::sleep(std::time::Duration::from_millis(2));
                 }
             }
         }
-        let text = reader.join().unwrap_or_default();
-        let mut lines: Vec<String> = text.lines().map(|l| l.to_string()).collect();
-        let header = if !lines.is_empty() && lines[0].starts_with("HEADER") {
-            lines.remove(0)[6..].to_string()
-        } else {
-            String::new()
-        };
-        if hung {
-            lines.push("end steps=0 schedule=- => hang".into());
-        } else if !lines.last().map_or(false, |l| l.starts_with("end ")) {
-            lines.push("end steps=0 schedule=- => crash".into());
+    }
+    out.push(format!("dfs-summary runs={runs} distinct={distinct} exhausted={} => -", queue.is_empty() as u8));
+    out
+}
+
+impl Interp for Ring {
+    fn case(&mut self, a: &[&str]) -> String {
+        // a[0] = case id, rest = header tokens
+        let tokens: Vec<String> = a[1..].iter().map(|x| x.to_string()).collect();
+        if let Some(spec) = tokens.iter().find_map(|t| t.strip_prefix("sched=dfs")) {
+            let spec = format!("dfs{spec}");
+            self.extra = dfs(&tokens, &spec);
+            return "ok dfs".into();
         }
+        let (header, lines) = run_child(&tokens);
         self.extra = lines;
         format!("ok{header}")
     }
